@@ -78,7 +78,15 @@ const A_BODY = [
   'function a10(x) {',
   '  return Object.create(K9.prototype).g + x /*@a10c*/',
   '}',
-  'module.exports = { a1, a2, a3, a4, a5, a6, a7, a8, a9, a10 }'
+  'function fail11(x) {',
+  "  throw new Error('a11' + x) /*@a11*/",
+  '}',
+  'function a11(n, t) {',
+  '  return n > 0 /*@a11c*/',
+  '    ? a11(n - 1, t + n) /*@a11c*/',
+  "    : fail11('bottom ' + t) /*@a11c*/",
+  '}',
+  'module.exports = { a1, a2, a3, a4, a5, a6, a7, a8, a9, a10, a11 }'
 ]
 const B_BODY = [
   'function b1(x) {',
@@ -150,13 +158,14 @@ const CALLS = {
   a8: (m) => m.a8('n'), // a native frame (Array.map) between two frames of the file
   a9: (m) => m.a9('k'), // constructor frame
   a10: (m) => m.a10('g'), // getter frame
+  a11: (m) => m.a11(2, ''), // several frames on ONE line of the content, the innermost rightmost
   b1: (m) => m.b1(' q '),
   z1: (m) => m.z1('f')
 }
 // sites of the position-collision file (see collisionFile)
 for (let k = 0; k < 16; k++) CALLS['s' + k] = (m) => m['s' + k]()
 // top-frame site of each call (null: the top frame is not in the rewritten file)
-const TOP = { a1: 'a1', a2: 'a2', a3: null, a4: 'a4', a5: null, a6: 'a6', a7: 'a7', a8: 'a8', a9: 'a9', a10: 'a10', b1: 'b1', z1: 'z1' }
+const TOP = { a1: 'a1', a2: 'a2', a3: null, a4: 'a4', a5: null, a6: 'a6', a7: 'a7', a8: 'a8', a9: 'a9', a10: 'a10', a11: 'a11', b1: 'b1', z1: 'z1' }
 
 function load (file, content) {
   const mod = { exports: {} }
@@ -211,6 +220,11 @@ function judge (main, exportsObj, fileInfo, expect, v, where, notes) {
       if (r.file === fileInfo.file) {
         const isTop = firstInFile && i === 0
         firstInFile = false
+        if (expect.translate && expect.decoded) {
+          // independent greatest-lower-bound lookup in the very map the content carries
+          const mm = SM.lookup(expect.decoded, r.line - 1, Math.max(r.col - 1, 0))
+          if (mm && mm.ol + 1 !== h.line) v('frame-line-differs-from-map', 'handler', `${where}: site ${name} frame ${i} at content ${r.line}:${r.col}: the embedded map gives original line ${mm.ol + 1}, the handler saw ${h.line}`)
+        }
         if (expect.translate) {
           if (h.file !== pathOf(h.line)) v('frame-wrong-path', 'handler', `${where}: site ${name} frame ${i}: reported file ${h.file}:${h.line}, original is ${pathOf(h.line)}`)
           else if (!okLine(h.line, isTop)) v('frame-wrong-line', 'handler:' + (isTop ? 'top' : 'caller'), `${where}: site ${name} frame ${i} (${r.fn}) at content line ${r.line} reported as line ${h.line}; original site lines: ${JSON.stringify(expect.sites)} shift ${expect.shift}`)
@@ -243,6 +257,7 @@ function judge (main, exportsObj, fileInfo, expect, v, where, notes) {
     })
   }
 }
+function decodedMapOf (content) { try { const t = require('../oracles/v8parse').trailerInfo(content); return t.map ? SM.decodeMap(t.map) : null } catch (e) { return null } }
 function escapeRe (s) { return s.replace(/[.*+?^${}()|[\]\\]/g, '\\$&') }
 
 // A NOT-modified version of a.js whose throw sites sit at exactly the content line:column of the in-file
@@ -350,7 +365,7 @@ async function check (leaf, resps, ctx) {
     const out = new main.Rewriter(config).rewrite(f.code, f.file)
     let ex
     try { ex = load(f.file, out.content) } catch (e) { v('content-does-not-load', 'load', String(e).slice(0, 160)); return res }
-    judge(main, ex, f, { path: f.orig.path, path2: f.orig.path2, split: f.orig.split, shift: f.orig.shift, sites: f.sites, translate: true }, v, `file ${path.basename(f.file)} (${p.layout}${p.chained ? ', chained' : ''})`, res.notes)
+    judge(main, ex, f, { path: f.orig.path, path2: f.orig.path2, split: f.orig.split, shift: f.orig.shift, sites: f.sites, translate: true, decoded: decodedMapOf(out.content) }, v, `file ${path.basename(f.file)} (${p.layout}${p.chained ? ', chained' : ''})`, res.notes)
     // (chained files) the same file again with an original map under which every in-file frame keeps its very
     // content line:column and only the FILE changes: a translation that looks at positions alone would skip it
     if (p.chained && p.src === 'relative' && !p.fname) {
@@ -431,7 +446,7 @@ async function check (leaf, resps, ctx) {
         let ex
         try { ex = load(file, st.content) } catch (e) { v('content-does-not-load', 'load', String(e).slice(0, 120)); continue }
         const where = `after event ${i} of [${leaf.hist.join(',')}], file ${path.basename(file)} @${st.ver}`
-        if (st.modified) judge(main, ex, st.f, { path: st.f.orig.path, path2: st.f.orig.path2, split: st.f.orig.split, shift: st.f.orig.shift, sites: st.f.sites, translate: true }, v, where, res.notes)
+        if (st.modified) judge(main, ex, st.f, { path: st.f.orig.path, path2: st.f.orig.path2, split: st.f.orig.split, shift: st.f.orig.shift, sites: st.f.sites, translate: true, decoded: decodedMapOf(st.content) }, v, where, res.notes)
         else {
           const sub = []
           judge(main, ex, st.f, { path: file, shift: 0, sites: st.f.sites, translate: false }, (rule, sig, detail) => sub.push({ rule, sig, detail }), where, res.notes)
